@@ -795,6 +795,7 @@ def describe(prop):
             "stand-alone reference: a fresh template built from the same constructor arguments, fitted by the harness to exactly data_intervals[k] with that dimension's method and weights (same floating-point path)",
             "rows within 1e-9 x scale of an interval edge may fall on either side (edge conventions are C10's subject)",
             "with rounded data (ties) and PointsPerIntervalSlicer, rows tying with a chunk edge may swap sides between row orders",
+            "a chained dependence function evaluated from its own coefficients and the model's own conditioner must give what the object gives (1e-9)",
         ],
         "probes": ["refit", "twin-permuted-step", "clean-fit-after-failed-fit", "rejected-data-accepted", "chained-dependence-checked", "continued-on-deep-copy", "caller-edited-filled-fit-description", "other-model-fitted-after-callers-edit"],
     }
